@@ -68,7 +68,7 @@ func TestC03(t *testing.T) {
 						pbt.Excluded("C03", "C03-klv-multi-item")
 					}
 				}
-				_, st, err := encodeStream(s, false)
+				_, st, err := safeEncodeStream(s, false)
 				if err != nil {
 					pbt.Check(rt, "C03", "roundtrip-"+name, s, false, nil, func() error { return err })
 					return
@@ -86,7 +86,13 @@ func TestC06(t *testing.T) {
 		t.Run(name, func(t *testing.T) {
 			rapid.Check(t, func(rt *rapid.T) {
 				s := genStream(rt, f, 1, 6)
-				_, st, err := encodeStream(s, true)
+				if name == "mjpeg" && rapid.IntRange(0, 2).Draw(rt, "jpeg_restart_intervals") == 0 {
+					// images with a restart interval: every packet then carries a restart-marker header as well
+					for i := range s.Frames {
+						s.Frames[i].JDRI = rapid.IntRange(1, 65535).Draw(rt, "dri")
+					}
+				}
+				_, st, err := safeEncodeStream(s, true)
 				if err != nil {
 					pbt.Check(rt, "C06", "packetizer-"+name, s, false, nil, func() error { return err })
 					return
